@@ -411,6 +411,7 @@ void decode(const std::string& bytes, int in_kind, const Pattern& p, T& out, con
 extern "C" int LLVMFuzzerTestOneInput(const uint8_t* data, size_t size) {
   vfz::begin_case(RULE);
   quiet_protobuf();
+  strip_witness_prefix(data, size);
   vfz::Dec d(data, size);
   int mode = d.u8() % 4;
   int out_kind = d.u8() % OUT_KINDS;
